@@ -6,7 +6,7 @@ listed in meta.json 'breaks', undoes the patch, updates meta.json 'detection'.
 usage: seedall.py [name-prefix ...]"""
 import json, os, subprocess, sys, glob, time
 
-ENV = dict(os.environ, GOFLAGS="-mod=mod", GOPROXY="off", GOSUMDB="off", GOTOOLCHAIN="local")
+ENV = dict(os.environ, GOFLAGS="-mod=mod", GOPROXY="off", GOSUMDB="off", GOTOOLCHAIN="local", VERIF_NO_EVIDENCE="1")
 # SEED_REPO: apply the patches to another checkout (e.g. the repo snapshot of a `vp run --with-repo`)
 REPO = os.environ.get("SEED_REPO", "/repo")
 VERIF = os.path.dirname(os.path.dirname(os.path.abspath(__file__)))
